@@ -997,6 +997,13 @@ def gen_C17(r, tier):
         cases.append("hist %d %s" % (r.below(2), " ".join(runs)))
     cases += gen_ctrfs(r, {"quick": 60, "thorough": 600}[tier])
     cases += gen_covfs(r, {"quick": 40, "thorough": 400}[tier])
+    # the same command twice (unordered outputs: the same set of lines), many workers meeting the same keys at once
+    for _ in range({"quick": 10, "thorough": 60}[tier]):
+        base = [bytes(r.choices(NUC, k=30 + r.below(40))) for _ in range(1 + r.below(3))]
+        recs = [b for b in base for _ in range(6)] * (20 + r.below(40))
+        sub = r.pick(["m2s", "m2s", "s2m"])
+        run = "min %s fa %s _" % (st({"m": r.pick([7, 9]), "w": r.pick([None, 14]), "p": sub, "t": r.pick([8, 16])}), hxlist(recs))
+        cases.append("hist 0 %s %s" % (run, run))
     return cases
 
 
@@ -1185,7 +1192,7 @@ PROPS = {
                 nontrivial=lambda c, o: o.startswith("exit=0|") or (not c.startswith("cli") and not o.startswith(("PANIC", "CRASH", "NOT-RUN"))),
                 assumptions=["runtime aborts and hangs not caused by the modelled logic (allocation failure, poisoned locks) are outside the model"]),
     "C17": dict(gen=gen_C17, needs=["harness", "cli"], to_spec=to_spec_cli, sample_filter=lambda c: len(c) < 600 and " cov " not in c and " ctr " not in c, sample_limit={"quick": 16, "thorough": 60}, sample_maxlen=900,
-                rule="histories of two or three accepted runs of one subcommand (different inputs, k, thread counts, presets) sharing one output location, half of them with stale temp chunk files of a bigger run (20 partitions x 4 chunks), a stale kmers.counts and a longer stale kmers.vectors planted before the last run; the result files after the last run are compared with the model/spec of the last run alone (i.e. a fresh location); then `ctrfs` / `covfs`: the counter and `cov` (one worker, budgets 0..10^6 k-mers per chunk pass) in a directory that is empty or holds those stale files - the partition and chunk counts, every file of the directory after count() and every file after merge(true) are compared with the file-level model of the counter (Model/CtrFs.v: names, text, read-back, removal) and with the spec (stale files that are not this run's temp files untouched, own temp files gone, counts = the specified table, vectors = the specified rows); non-trivial = output produced",
+                rule="histories of two or three accepted runs of one subcommand (different inputs, k, thread counts, presets) sharing one output location, half of them with stale temp chunk files of a bigger run (20 partitions x 4 chunks), a stale kmers.counts and a longer stale kmers.vectors planted before the last run; the result files after the last run are compared with the model/spec of the last run alone (i.e. a fresh location); then `ctrfs` / `covfs`: the counter and `cov` (one worker, budgets 0..10^6 k-mers per chunk pass) in a directory that is empty or holds those stale files - the partition and chunk counts, every file of the directory after count() and every file after merge(true) are compared with the file-level model of the counter (Model/CtrFs.v: names, text, read-back, removal) and with the spec (stale files that are not this run's temp files untouched, own temp files gone, counts = the specified table, vectors = the specified rows); the same `min` command twice at 8 / 16 threads on groups of identical neighbouring reads; non-trivial = output produced",
                 nontrivial=lambda c, o: (o.startswith("exit=0|") and not o.endswith(("NOOUT", "|"))) or (c.startswith(("ctrfs ", "covfs ")) and "counts=" in o and not o.endswith("counts=") and not o.endswith("counts=;vectors")),
                 assumptions=["File::create / truncate + set_len / unlink behave as POSIX says (OS semantics are not modelled)"]),
     "C18": dict(gen=gen_C18, needs=["harness"], extra=extra_C18, to_spec=to_spec_C18,
